@@ -164,6 +164,23 @@ class SimTransport(object):
         return True
 
 
+class _PendingSocket(object):
+    """what connector.transport is while the connect is in progress (Twisted: the Client with its fresh socket):
+    only getHandle().setsockopt() is used on it (TCP MD5 signature); the environment may make that call fail"""
+
+    def __init__(self, reactor):
+        self.reactor = reactor
+        self.sockopts = []
+
+    def getHandle(self):
+        return self
+
+    def setsockopt(self, *a):
+        self.sockopts.append(a)
+        if self.reactor.setsockopt_error is not None:
+            raise self.reactor.setsockopt_error
+
+
 class SimConnector(object):
     def __init__(self, reactor, host, port, factory, timeout, bindAddress, cid):
         self.reactor, self.host, self.port, self.factory = reactor, host, port, factory
@@ -183,6 +200,7 @@ class SimConnector(object):
         if self.state != 'disconnected':
             raise RuntimeError("can't connect in this state")
         self.state = 'connecting'
+        self.transport = _PendingSocket(self.reactor)
         if not self.factoryStarted:
             self.factory.doStart()
             self.factoryStarted = 1
@@ -278,6 +296,7 @@ class SimReactor(object):
         self.write_observers = []
         self.connect_observers = []
         self.running = True
+        self.setsockopt_error = None    # an OSError instance: setsockopt on a connecting socket fails (kernel refuses TCP_MD5SIG)
         self.defer_io = False      # True: a local close completes only when the environment says so (sim_complete_close)
         self.choices = []          # sizes of same-instant ready sets > 1 seen
 
